@@ -1,8 +1,902 @@
-//! C13 — see /verif/DESIGN.md §3.
-use vf_core::{Args, Ctx};
+//! C13 — colour glyph painting terminates with balanced, correctly nested
+//! callbacks. See /verif/DESIGN.md §3 "C13".
+//!
+//! Oracles
+//! * [`Mon`], a `ColorPainter` that runs a pushdown checker online
+//!   (transform / clip / layer must nest LIFO with matching kinds, no pop on
+//!   empty) and digests the event stream. `paint` returning `Ok` with a
+//!   non-empty stack or a nesting error is a violation; errors may leave
+//!   pushes open.
+//! * the traversal hook `skrifa::color::verif_traversal_hooks::take_visits()`
+//!   gives (paint nodes entered, max recursion depth) per paint call:
+//!   visits <= 2^20 (budget), depth <= 64, depth == 64 ⇒ `Err`.
+//! * a reference model of every generated paint graph (unfolded size upper
+//!   bound, reachable cycles, longest path, dangling references): a graph
+//!   with a reachable cycle / a path of >= 65 nodes / a dangling reference
+//!   must give `Err`; an acyclic graph may not be visited more often than its
+//!   unfolded size.
+//! * the painter aborts a runaway traversal (callback budget) by a harness
+//!   panic so that every run stays bounded.
+mod model;
 
-pub const REPLAY: Option<fn(&mut Ctx, &Args, &serde_json::Value, Option<&[u8]>)> = None;
+use model::*;
+use serde_json::{json, Value};
+use skrifa::color::{Brush, ColorGlyphFormat, ColorPainter, CompositeMode, PaintCachedColorGlyph, PaintError, Transform};
+use skrifa::raw::types::BoundingBox;
+use skrifa::raw::{FontRef, TableProvider};
+use skrifa::{GlyphId, MetadataProvider};
+use std::cell::RefCell;
+use vf_core::{fnv64, Args, Ctx, Digest, HarnessAbort, PanicPolicy, Rng};
+
+pub const REPLAY: Option<fn(&mut Ctx, &Args, &serde_json::Value, Option<&[u8]>)> = Some(replay);
+
+/// Paint nodes a single paint call may enter (DESIGN §3 C13; real fonts < 10^4).
+pub const VISIT_BUDGET: u64 = 1 << 20;
+/// Every visited node issues at most 5 callbacks (PaintGlyph through the
+/// default `fill_glyph`), so exceeding this many callbacks implies that the
+/// visit budget is exceeded as well.
+pub const CALLBACK_BUDGET: u64 = 6 * VISIT_BUDGET;
+pub const MAX_DEPTH: usize = 64;
+
+// ------------------------------------------------------------------ painter
+
+#[derive(Clone, Copy, PartialEq, Eq, Debug)]
+enum K {
+    Transform,
+    Clip,
+    Layer,
+}
+
+#[derive(Clone, Copy, Debug, PartialEq, Eq)]
+pub enum Cache {
+    /// the default: ask skrifa to traverse the sub graph
+    Unimplemented,
+    /// every referenced colour glyph was painted from the client's cache
+    OkAll,
+    /// the client fails
+    ErrAll,
+    /// per glyph id: hash decides between the three
+    Mixed(u64),
+}
+
+#[derive(Clone, Copy, Debug, PartialEq, Eq)]
+pub struct Policy {
+    pub cache: Cache,
+    /// override `fill_glyph` (atomic event) instead of the default expansion
+    pub own_fill_glyph: bool,
+    /// override `pop_layer_with_mode`
+    pub own_pop_mode: bool,
+}
+
+impl Policy {
+    pub fn all(seed: u64) -> [Policy; 5] {
+        [
+            Policy { cache: Cache::Unimplemented, own_fill_glyph: false, own_pop_mode: false },
+            Policy { cache: Cache::Unimplemented, own_fill_glyph: true, own_pop_mode: true },
+            Policy { cache: Cache::OkAll, own_fill_glyph: true, own_pop_mode: false },
+            Policy { cache: Cache::ErrAll, own_fill_glyph: false, own_pop_mode: true },
+            Policy { cache: Cache::Mixed(seed), own_fill_glyph: seed & 1 == 0, own_pop_mode: seed & 2 == 0 },
+        ]
+    }
+    fn code(&self) -> String {
+        let c = match self.cache {
+            Cache::Unimplemented => "unimpl".to_string(),
+            Cache::OkAll => "ok".to_string(),
+            Cache::ErrAll => "err".to_string(),
+            Cache::Mixed(s) => format!("mixed{:x}", s & 0xffff),
+        };
+        format!("{}{}{}", c, if self.own_fill_glyph { "+fg" } else { "" }, if self.own_pop_mode { "+pm" } else { "" })
+    }
+    fn to_json(&self) -> Value {
+        let (c, s) = match self.cache {
+            Cache::Unimplemented => ("unimpl", 0),
+            Cache::OkAll => ("ok", 0),
+            Cache::ErrAll => ("err", 0),
+            Cache::Mixed(s) => ("mixed", s),
+        };
+        json!({"cache": c, "mix_seed": s, "own_fill_glyph": self.own_fill_glyph, "own_pop_mode": self.own_pop_mode})
+    }
+    fn from_json(v: &Value) -> Policy {
+        let cache = match v["cache"].as_str().unwrap_or("unimpl") {
+            "ok" => Cache::OkAll,
+            "err" => Cache::ErrAll,
+            "mixed" => Cache::Mixed(v["mix_seed"].as_u64().unwrap_or(0)),
+            _ => Cache::Unimplemented,
+        };
+        Policy { cache, own_fill_glyph: v["own_fill_glyph"].as_bool().unwrap_or(false), own_pop_mode: v["own_pop_mode"].as_bool().unwrap_or(false) }
+    }
+}
+
+const EV_NAMES: [&str; 11] = [
+    "push_transform",
+    "pop_transform",
+    "push_clip_glyph",
+    "push_clip_box",
+    "pop_clip",
+    "fill",
+    "fill_glyph",
+    "cached_glyph",
+    "push_layer",
+    "pop_layer",
+    "pop_layer_with_mode",
+];
+
+pub struct Mon {
+    policy: Policy,
+    stack: Vec<K>,
+    modes: Vec<CompositeMode>,
+    callbacks: u64,
+    budget: u64,
+    ev: [u64; 11],
+    digest: Digest,
+    nest_error: Option<(String, u64)>,
+    max_stack: usize,
+    mode_mismatch: u64,
+    non_finite: u64,
+    log: Vec<u8>,
+}
+
+impl Mon {
+    pub fn new(policy: Policy) -> Mon {
+        Mon {
+            policy,
+            stack: Vec::new(),
+            modes: Vec::new(),
+            callbacks: 0,
+            budget: CALLBACK_BUDGET,
+            ev: [0; 11],
+            digest: Digest::new(),
+            nest_error: None,
+            max_stack: 0,
+            mode_mismatch: 0,
+            non_finite: 0,
+            log: Vec::new(),
+        }
+    }
+    fn tick(&mut self, ev: usize) {
+        self.callbacks += 1;
+        self.ev[ev] += 1;
+        self.digest.bytes(&[ev as u8]);
+        if self.log.len() < 48 {
+            self.log.push(ev as u8);
+        }
+        if self.callbacks > self.budget {
+            // keep the run bounded; never attributed to the library as a panic
+            std::panic::panic_any(HarnessAbort("budget"));
+        }
+    }
+    fn push(&mut self, k: K) {
+        self.stack.push(k);
+        self.max_stack = self.max_stack.max(self.stack.len());
+    }
+    fn pop(&mut self, k: K) {
+        match self.stack.pop() {
+            None => {
+                if self.nest_error.is_none() {
+                    self.nest_error = Some((format!("pop-{:?}-on-empty", k), self.callbacks));
+                }
+            }
+            Some(top) if top != k => {
+                if self.nest_error.is_none() {
+                    self.nest_error = Some((format!("pop-{:?}-but-top-is-{:?}", k, top), self.callbacks));
+                }
+            }
+            _ => {}
+        }
+    }
+    fn log_string(&self) -> String {
+        self.log.iter().map(|e| EV_NAMES[*e as usize]).collect::<Vec<_>>().join(" ")
+    }
+}
+
+impl ColorPainter for Mon {
+    fn push_transform(&mut self, t: Transform) {
+        self.tick(0);
+        for v in [t.xx, t.yx, t.xy, t.yy, t.dx, t.dy] {
+            self.digest.f32(v);
+            if !v.is_finite() {
+                self.non_finite += 1;
+            }
+        }
+        self.push(K::Transform);
+    }
+    fn pop_transform(&mut self) {
+        self.tick(1);
+        self.pop(K::Transform);
+    }
+    fn push_clip_glyph(&mut self, g: GlyphId) {
+        self.tick(2);
+        self.digest.u32(g.to_u32());
+        self.push(K::Clip);
+    }
+    fn push_clip_box(&mut self, b: BoundingBox<f32>) {
+        self.tick(3);
+        for v in [b.x_min, b.y_min, b.x_max, b.y_max] {
+            self.digest.f32(v);
+        }
+        self.push(K::Clip);
+    }
+    fn pop_clip(&mut self) {
+        self.tick(4);
+        self.pop(K::Clip);
+    }
+    fn fill(&mut self, brush: Brush<'_>) {
+        self.tick(5);
+        match brush {
+            Brush::Solid { palette_index, alpha } => {
+                self.digest.u32(palette_index as u32);
+                self.digest.f32(alpha);
+            }
+            Brush::LinearGradient { color_stops, .. } | Brush::RadialGradient { color_stops, .. } | Brush::SweepGradient { color_stops, .. } => {
+                self.digest.u64(color_stops.len() as u64);
+                for s in color_stops {
+                    self.digest.f32(s.offset);
+                }
+            }
+        }
+    }
+    fn fill_glyph(&mut self, glyph_id: GlyphId, brush_transform: Option<Transform>, brush: Brush<'_>) {
+        if self.policy.own_fill_glyph {
+            self.tick(6);
+            self.digest.u32(glyph_id.to_u32());
+            self.digest.u32(brush_transform.is_some() as u32);
+        } else {
+            // the trait's default expansion
+            self.push_clip_glyph(glyph_id);
+            if let Some(t) = brush_transform {
+                self.push_transform(t);
+                self.fill(brush);
+                self.pop_transform();
+            } else {
+                self.fill(brush);
+            }
+            self.pop_clip();
+        }
+    }
+    fn paint_cached_color_glyph(&mut self, glyph: GlyphId) -> Result<PaintCachedColorGlyph, PaintError> {
+        self.tick(7);
+        self.digest.u32(glyph.to_u32());
+        let sel = match self.policy.cache {
+            Cache::Unimplemented => 0,
+            Cache::OkAll => 1,
+            Cache::ErrAll => 2,
+            Cache::Mixed(s) => {
+                let mut d = Digest::new();
+                d.u64(s);
+                d.u32(glyph.to_u32());
+                // half unimplemented, 3/8 ok, 1/8 err
+                match d.finish() >> 7 & 7 {
+                    0..=3 => 0,
+                    4..=6 => 1,
+                    _ => 2,
+                }
+            }
+        };
+        match sel {
+            0 => Ok(PaintCachedColorGlyph::Unimplemented),
+            1 => Ok(PaintCachedColorGlyph::Ok),
+            _ => Err(PaintError::GlyphNotFound(glyph)),
+        }
+    }
+    fn push_layer(&mut self, mode: CompositeMode) {
+        self.tick(8);
+        self.digest.u32(mode as u32);
+        self.modes.push(mode);
+        self.push(K::Layer);
+    }
+    fn pop_layer(&mut self) {
+        self.tick(9);
+        self.modes.pop();
+        self.pop(K::Layer);
+    }
+    fn pop_layer_with_mode(&mut self, mode: CompositeMode) {
+        if self.policy.own_pop_mode {
+            self.tick(10);
+            if let Some(m) = self.modes.pop() {
+                if m != mode {
+                    self.mode_mismatch += 1;
+                }
+            }
+            self.pop(K::Layer);
+        } else {
+            self.pop_layer();
+        }
+    }
+}
+
+// ------------------------------------------------------------------ one paint call
+
+#[derive(Clone, Debug)]
+pub struct Outcome {
+    /// None: v1/v0 glyph not present
+    pub present: bool,
+    pub v1: bool,
+    pub ok: bool,
+    pub err: String,
+    pub visits: u64,
+    pub max_depth: usize,
+    pub callbacks: u64,
+    pub open: usize,
+    pub nest_error: Option<(String, u64)>,
+    pub aborted: bool,
+    pub pushes: u64,
+    pub digest: u64,
+    pub log: String,
+    pub ev: [u64; 11],
+    pub mode_mismatch: u64,
+}
+
+fn err_kind(e: &PaintError) -> String {
+    match e {
+        PaintError::ParseError(r) => format!("ParseError({:?})", r).split('{').next().unwrap_or("ParseError").trim().to_string(),
+        PaintError::GlyphNotFound(_) => "GlyphNotFound".into(),
+        PaintError::PaintCycleDetected => "PaintCycleDetected".into(),
+        PaintError::DepthLimitExceeded => "DepthLimitExceeded".into(),
+    }
+}
+
+/// Which table version to ask for.
+#[derive(Clone, Copy, Debug, PartialEq, Eq)]
+pub enum Want {
+    Any,
+    V0,
+    V1,
+}
+
+/// Paint one glyph under the monitors. Returns None when a panic was caught
+/// and judged (or a harness problem was noted).
+pub fn paint_one(ctx: &mut Ctx, font: &[u8], gid: u32, coords: &[i16], policy: Policy, want: Want, what: &str) -> Option<Outcome> {
+    let mon = RefCell::new(Mon::new(policy));
+    let label = || format!("{} gid={} coords={:?} policy={}", what, gid, coords, policy.code());
+    let ncoords: Vec<skrifa::instance::NormalizedCoord> = coords.iter().map(|c| skrifa::instance::NormalizedCoord::from_bits(*c)).collect();
+    let run = || -> Option<(bool, Result<(), PaintError>, u64, usize)> {
+        *mon.borrow_mut() = Mon::new(policy);
+        let fr = FontRef::new(font).ok()?;
+        let coll = fr.color_glyphs();
+        let g = GlyphId::new(gid);
+        let glyph = match want {
+            Want::Any => coll.get(g),
+            Want::V0 => coll.get_with_format(g, ColorGlyphFormat::ColrV0),
+            Want::V1 => coll.get_with_format(g, ColorGlyphFormat::ColrV1),
+        }?;
+        let v1 = matches!(glyph.format(), ColorGlyphFormat::ColrV1);
+        let _ = skrifa::color::verif_traversal_hooks::take_visits();
+        let r = {
+            let mut m = mon.borrow_mut();
+            glyph.paint(skrifa::instance::LocationRef::new(&ncoords), &mut *m)
+        };
+        let (v, d) = skrifa::color::verif_traversal_hooks::take_visits();
+        Some((v1, r, v, d))
+    };
+    let res = ctx.run_case(&label, Some(font), &run);
+    let m = mon.into_inner();
+    let mk = |present: bool, v1: bool, ok: bool, err: String, visits: u64, max_depth: usize, aborted: bool| Outcome {
+        present,
+        v1,
+        ok,
+        err,
+        visits,
+        max_depth,
+        callbacks: m.callbacks,
+        open: m.stack.len(),
+        nest_error: m.nest_error.clone(),
+        aborted,
+        pushes: m.ev[0] + m.ev[2] + m.ev[3] + m.ev[8],
+        digest: m.digest.finish(),
+        log: m.log_string(),
+        ev: m.ev,
+        mode_mismatch: m.mode_mismatch,
+    };
+    match res {
+        Ok(None) => Some(mk(false, false, false, String::new(), 0, 0, false)),
+        Ok(Some((v1, r, visits, depth))) => {
+            let (ok, err) = match &r {
+                Ok(()) => (true, String::new()),
+                Err(e) => (false, err_kind(e)),
+            };
+            Some(mk(true, v1, ok, err, visits, depth, false))
+        }
+        Err(p) => {
+            // the counters of the interrupted traversal are still in the hook's thread-locals
+            let (visits, depth) = skrifa::color::verif_traversal_hooks::take_visits();
+            if p.class == vf_core::PanicClass::Harness {
+                // our own budget abort
+                Some(mk(true, true, false, "aborted-by-painter".into(), visits, depth, true))
+            } else {
+                ctx.judge_panic(
+                    &p,
+                    "ColorGlyph::paint",
+                    json!({"what": what, "gid": gid, "coords": coords, "policy": policy.to_json(), "font_hash": format!("{:016x}", fnv64(font))}),
+                    Some(font),
+                );
+                None
+            }
+        }
+    }
+}
+
+/// What the reference model says about the case (None for fonts we did not build).
+#[derive(Clone, Debug, Default)]
+pub struct Expect {
+    pub must_err: Option<String>,
+    /// upper bound of visits (unfolded size); None if not known
+    pub visits_ub: Option<u64>,
+    /// signature stem for the budget violation (family identity)
+    pub family: String,
+}
+
+/// Apply the generic oracles (+ model expectations) to one outcome.
+#[allow(clippy::too_many_arguments)]
+pub fn judge(ctx: &mut Ctx, o: &Outcome, font: &[u8], gid: u32, coords: &[i16], policy: Policy, what: &str, exp: &Expect) {
+    ctx.eval();
+    if !o.present {
+        ctx.count("glyph_not_colour", 1);
+        return;
+    }
+    ctx.count(if o.v1 { "paint_v1" } else { "paint_v0" }, 1);
+    ctx.count(if o.ok { "result_ok" } else { "result_err" }, 1);
+    if !o.ok {
+        ctx.count(&format!("err:{}", o.err), 1);
+        if o.open > 0 {
+            ctx.count("err_with_open_pushes(allowed)", 1);
+        }
+        if o.nest_error.is_some() {
+            ctx.count("err_with_nesting_error(not judged)", 1);
+        }
+    }
+    for (i, n) in o.ev.iter().enumerate() {
+        if *n > 0 {
+            ctx.count(&format!("cb:{}", EV_NAMES[i]), *n);
+        }
+    }
+    ctx.count("visits_total", o.visits);
+    if o.mode_mismatch > 0 {
+        ctx.count("pop_layer_mode_differs_from_push(not judged)", o.mode_mismatch);
+    }
+    ctx.distinct("event_streams", o.digest);
+    let hist = match o.visits {
+        0 => "visits:0",
+        1..=9 => "visits:1-9",
+        10..=99 => "visits:10-99",
+        100..=999 => "visits:100-999",
+        1000..=9999 => "visits:1e3-1e4",
+        10000..=99999 => "visits:1e4-1e5",
+        100000..=1048576 => "visits:1e5-2^20",
+        _ => "visits:>2^20",
+    };
+    ctx.count(hist, 1);
+    ctx.count(&format!("max_depth_bucket:{}", (o.max_depth / 8) * 8), 1);
+    let detail = |extra: Value| {
+        json!({"what": what, "gid": gid, "coords": coords, "policy": policy.to_json(), "result": if o.ok {"Ok".to_string()} else {format!("Err({})", o.err)},
+               "visits": o.visits, "max_depth": o.max_depth, "callbacks": o.callbacks, "open_pushes": o.open, "first_events": o.log,
+               "font_len": font.len(), "font_hash": format!("{:016x}", fnv64(font)), "info": extra})
+    };
+    let fam = if exp.family.is_empty() { format!("{}:gid={}", what, gid) } else { exp.family.clone() };
+    // ---- termination / boundedness
+    if o.aborted || o.visits > VISIT_BUDGET {
+        ctx.count("over_budget", 1);
+        ctx.violation(
+            &format!("unbounded-traversal:{}", fam),
+            detail(json!({"budget_visits": VISIT_BUDGET, "aborted_by_painter": o.aborted, "unfolded_size_bound": exp.visits_ub})),
+            Some(font),
+        );
+    }
+    if o.max_depth > MAX_DEPTH {
+        ctx.violation(&format!("depth-limit-exceeded:{}:depth={}", fam, o.max_depth), detail(json!({"limit": MAX_DEPTH})), Some(font));
+    } else if o.max_depth == MAX_DEPTH && o.ok {
+        ctx.violation(&format!("too-deep-graph-painted-ok:{}", fam), detail(json!({"limit": MAX_DEPTH})), Some(font));
+    }
+    if let (Some(ub), false) = (exp.visits_ub, o.aborted) {
+        if o.visits > ub {
+            ctx.violation(&format!("visits-exceed-unfolded-graph:{}", fam), detail(json!({"unfolded_size_bound": ub})), Some(font));
+        }
+    }
+    // ---- balance
+    if o.ok {
+        if let Some((e, at)) = &o.nest_error {
+            ctx.violation(&format!("ok-but-misnested:{}:{}", e, fam), detail(json!({"nesting_error": e, "at_callback": at})), Some(font));
+        } else if o.open > 0 {
+            ctx.violation(&format!("ok-but-unbalanced:open={}:{}", o.open, fam), detail(json!({"open": o.open})), Some(font));
+        }
+        if let Some(why) = &exp.must_err {
+            ctx.violation(&format!("bad-graph-painted-ok:{}:{}", why, fam), detail(json!({"model": why})), Some(font));
+        }
+    } else if exp.must_err.is_some() {
+        ctx.count("model_expected_err_and_got_err", 1);
+    }
+    // ---- non-triviality
+    let nontrivial = o.v1 && ((o.visits >= 3 && o.pushes >= 1) || (!o.ok && o.visits >= 2));
+    if nontrivial {
+        let mut d = Digest::new();
+        d.u64(fnv64(font));
+        d.u32(gid);
+        for c in coords {
+            d.u32(*c as u16 as u32);
+        }
+        d.str(&policy.code());
+        ctx.nontrivial(d.finish());
+        if o.ok {
+            ctx.count("nontrivial_ok_balanced", 1);
+        }
+    }
+    ctx.label("error_kinds", if o.ok { "Ok" } else { &o.err });
+}
+
+// ------------------------------------------------------------------ workloads
+
+fn run_model_case(ctx: &mut Ctx, family: &str, idx: u64, m: &Model, rng: &mut Rng, keyed_family: Option<&str>) {
+    let Some(font) = m.to_font(rng) else {
+        ctx.count("model_not_serialisable", 1);
+        return;
+    };
+    ctx.count(&format!("family:{}", family), 1);
+    for f in m.formats_used() {
+        ctx.label("paint_formats_built", &format!("{:02}", f));
+    }
+    let what = format!("gen:{}#{}", family, idx);
+    let gids = m.glyph_ids_to_try();
+    let pol_seed = rng.u64();
+    let policies = Policy::all(pol_seed);
+    for gid in gids {
+        let an_desc = m.analyze(gid, true);
+        let an_leaf = m.analyze(gid, false);
+        for (pi, policy) in policies.iter().enumerate() {
+            // locations: default, random, extremes
+            let coords: Vec<i16> = match (pi + gid as usize) % 4 {
+                0 => vec![],
+                1 => (0..m.axes).map(|_| rng.range(-16384, 16384) as i16).collect(),
+                2 => (0..m.axes).map(|_| *rng.pick(&[-16384i16, 0, 16384, 8192])).collect(),
+                _ => (0..m.axes + 1).map(|_| rng.range(-20000, 20000) as i16).collect(),
+            };
+            let mut exp = Expect { family: String::new(), ..Default::default() };
+            if let Some(k) = keyed_family {
+                exp.family = k.to_string();
+            } else {
+                exp.family = format!("{}:gid={}", what, gid);
+            }
+            if let Some(an) = &an_desc {
+                // unfolded size bounds every policy
+                if !an.cyclic && !an.cut {
+                    exp.visits_ub = Some(an.unfolded);
+                }
+                let a = match policy.cache {
+                    Cache::Unimplemented => Some(an),
+                    Cache::OkAll | Cache::ErrAll => an_leaf.as_ref(),
+                    Cache::Mixed(_) => None,
+                };
+                if let Some(a) = a {
+                    if !a.cut {
+                        if a.cyclic {
+                            exp.must_err = Some("reachable-cycle".into());
+                        } else if a.longest_path >= MAX_DEPTH + 1 {
+                            exp.must_err = Some("path-of-65-or-more-nodes".into());
+                        } else if a.dangling {
+                            exp.must_err = Some("dangling-reference".into());
+                        }
+                    }
+                }
+                if policy.cache == Cache::ErrAll && an.colr_glyph_edges_to_existing && exp.must_err.is_none() && !an.cut && !an.cyclic {
+                    // every existing ColrGlyph edge is reached (nothing else fails) and the client errs
+                    if an.longest_path < MAX_DEPTH + 1 && !an.dangling {
+                        exp.must_err = Some("client-cache-callback-failed".into());
+                    }
+                }
+            }
+            if let Some(o) = paint_one(ctx, &font, gid, &coords, *policy, Want::Any, &what) {
+                judge(ctx, &o, &font, gid, &coords, *policy, &what, &exp);
+                if let Some(an) = &an_desc {
+                    if o.present && o.v1 {
+                        ctx.distinct("graph_shapes", an.shape_digest);
+                        if an.cyclic {
+                            ctx.count("model:cyclic_graph_painted", 1);
+                        }
+                        if an.longest_path >= MAX_DEPTH + 1 {
+                            ctx.count("model:too_deep_graph_painted", 1);
+                        }
+                        if !an.cyclic && !an.dangling && an.longest_path <= MAX_DEPTH && !o.ok && policy.cache == Cache::Unimplemented {
+                            ctx.count("model:wellformed_graph_returned_err(not judged)", 1);
+                        }
+                        if pi == 0 {
+                            ctx.sample_by_kind(
+                                family,
+                                json!({"case": what, "gid": gid, "nodes_unfolded": an.unfolded, "longest_path": an.longest_path, "cyclic": an.cyclic,
+                                       "result": if o.ok {"Ok".into()} else {o.err.clone()}, "visits": o.visits, "max_depth": o.max_depth, "first_events": o.log}),
+                            );
+                        }
+                    }
+                }
+            }
+        }
+    }
+    // raw byte patches of the generated table: generic oracles only
+    if rng.chance(1, 3) {
+        let mut b = font.clone();
+        let dir = vf_core::gen::parse_dir(&b, 0);
+        if let Some(rec) = dir.iter().find(|r| &r.tag == b"COLR") {
+            let r = rec.range(b.len());
+            if r.len() > 4 {
+                let n = 1 + rng.usize(3);
+                for _ in 0..n {
+                    let p = r.start + rng.usize(r.len());
+                    b[p] = match rng.usize(4) {
+                        0 => b[p] ^ (1 << rng.usize(8)),
+                        1 => 0,
+                        2 => 0xff,
+                        _ => rng.u32() as u8,
+                    };
+                }
+                ctx.count("raw_patched_generated_tables", 1);
+                let what = format!("{}:patched", what);
+                for gid in m.glyph_ids_to_try() {
+                    let policy = policies[(gid as usize) % policies.len()];
+                    let coords: Vec<i16> = (0..m.axes).map(|_| rng.range(-16384, 16384) as i16).collect();
+                    if let Some(o) = paint_one(ctx, &b, gid, &coords, policy, Want::Any, &what) {
+                        let exp = Expect { family: format!("{}:gid={}", what, gid), ..Default::default() };
+                        judge(ctx, &o, &b, gid, &coords, policy, &what, &exp);
+                    }
+                }
+            }
+        }
+    }
+}
+
+/// The bounded reproducers of the missing visit budget, and their growth curves.
+fn fanout_families(ctx: &mut Ctx) {
+    let mut rng = Rng::derive(ctx.seed, "c13-fanout", 0);
+    // (family key, builder, sizes used for the growth curve, size that must exceed the budget, size that the painter aborts)
+    type B = fn(usize) -> Model;
+    let fams: [(&str, B, [usize; 4], usize, usize); 3] = [
+        ("fanout-dag:PaintColrLayers-fibonacci", Model::fibonacci_layers, [12, 16, 20, 24], 30, 36),
+        ("fanout-dag:PaintComposite-shared-child", Model::shared_child_composite, [6, 10, 14, 17], 20, 26),
+        ("nested-PaintGlyph-chain", Model::nested_glyph_chain, [6, 10, 14, 17], 20, 0),
+    ];
+    let mut growth = serde_json::Map::new();
+    for (key, build, sizes, over, abort_size) in fams {
+        let mut curve = vec![];
+        for n in sizes {
+            let m = build(n);
+            let Some(font) = m.to_font(&mut rng) else { continue };
+            let table_len = vf_core::gen::parse_dir(&font, 0).iter().find(|r| &r.tag == b"COLR").map(|r| r.len).unwrap_or(0);
+            let policy = Policy::all(0)[0];
+            let what = format!("gen:{}:n={}", key, n);
+            if let Some(o) = paint_one(ctx, &font, 0, &[], policy, Want::V1, &what) {
+                let an = m.analyze(0, true);
+                let exp = Expect { family: key.to_string(), visits_ub: an.filter(|a| !a.cut && !a.cyclic).map(|a| a.unfolded), must_err: None };
+                judge(ctx, &o, &font, 0, &[], policy, &what, &exp);
+                curve.push(json!({"n": n, "colr_table_bytes": table_len, "visits": o.visits, "callbacks": o.callbacks, "result": if o.ok {"Ok"} else {"Err"}}));
+            }
+        }
+        growth.insert(key.to_string(), json!(curve));
+        for n in [over, abort_size] {
+            if n == 0 {
+                continue;
+            }
+            let m = build(n);
+            let Some(font) = m.to_font(&mut rng) else { continue };
+            let policy = Policy::all(0)[0];
+            let what = format!("gen:{}:n={}", key, n);
+            if let Some(o) = paint_one(ctx, &font, 0, &[], policy, Want::V1, &what) {
+                let exp = Expect { family: key.to_string(), visits_ub: None, must_err: None };
+                judge(ctx, &o, &font, 0, &[], policy, &what, &exp);
+                ctx.count(if o.aborted { "fanout_probe_aborted_by_painter" } else if o.ok { "fanout_probe_completed_ok" } else { "fanout_probe_returned_err" }, 1);
+            }
+        }
+    }
+    ctx.extra.insert("fanout_growth".into(), Value::Object(growth));
+}
+
+fn corpus_colr_fonts() -> Vec<vf_core::CorpusFont> {
+    vf_core::corpus_fonts()
+        .into_iter()
+        .filter(|f| FontRef::new(&f.data).map(|fr| fr.colr().is_ok()).unwrap_or(false))
+        .collect()
+}
+
+fn axis_count(font: &[u8]) -> usize {
+    FontRef::new(font).ok().and_then(|f| f.fvar().ok()).map(|f| f.axis_count() as usize).unwrap_or(0)
+}
+
+fn num_glyphs(font: &[u8]) -> u32 {
+    FontRef::new(font).ok().and_then(|f| f.maxp().ok()).map(|m| m.num_glyphs() as u32).unwrap_or(0)
+}
+
+fn corpus_pass(ctx: &mut Ctx, fonts: &[vf_core::CorpusFont], item0: &mut usize) {
+    for f in fonts {
+        let n = num_glyphs(&f.data);
+        let axes = axis_count(&f.data);
+        ctx.label("corpus_colr_fonts", &f.name);
+        for gid in 0..n + 2 {
+            let it = *item0;
+            *item0 += 1;
+            if !ctx.mine(it) {
+                continue;
+            }
+            let mut rng = Rng::derive(ctx.seed, "c13-corpus", it as u64);
+            let nloc = ctx.tier.pick(2, 6);
+            for li in 0..nloc {
+                let coords: Vec<i16> = match li {
+                    0 => vec![],
+                    1 => (0..axes).map(|_| rng.range(-16384, 16384) as i16).collect(),
+                    2 => (0..axes).map(|_| 16384).collect(),
+                    3 => (0..axes).map(|_| -16384).collect(),
+                    _ => (0..axes).map(|_| if rng.chance(1, 4) { rng.range(-16384, 16384) as i16 } else { 0 }).collect(),
+                };
+                for policy in Policy::all(rng.u64()) {
+                    for want in [Want::V1, Want::V0] {
+                        let what = format!("corpus:{}", f.name);
+                        if let Some(o) = paint_one(ctx, &f.data, gid, &coords, policy, want, &what) {
+                            if !o.present {
+                                continue;
+                            }
+                            let exp = Expect { family: format!("{}:gid={}", what, gid), ..Default::default() };
+                            judge(ctx, &o, &f.data, gid, &coords, policy, &what, &exp);
+                            if o.visits > 10_000 {
+                                ctx.count("corpus_glyph_over_1e4_visits", 1);
+                            }
+                        }
+                    }
+                }
+            }
+        }
+    }
+}
+
+fn mutant_pass(ctx: &mut Ctx, fonts: &[vf_core::CorpusFont], item0: &mut usize, per_font: usize) {
+    for f in fonts {
+        let dir = vf_core::gen::parse_dir(&f.data, 0);
+        let Some(rec) = dir.iter().find(|r| &r.tag == b"COLR").cloned() else { continue };
+        let colr_range = rec.range(f.data.len());
+        if colr_range.len() < 16 {
+            continue;
+        }
+        let n = num_glyphs(&f.data);
+        let axes = axis_count(&f.data);
+        // colour glyph ids of the pristine font (mutants mostly keep them)
+        let colour_gids: Vec<u32> = {
+            let fr = FontRef::new(&f.data).unwrap();
+            let c = fr.color_glyphs();
+            (0..n).filter(|g| c.get(GlyphId::new(*g)).is_some()).collect()
+        };
+        if colour_gids.is_empty() {
+            continue;
+        }
+        let mut buf: Vec<u8> = f.data.to_vec();
+        for k in 0..per_font {
+            let it = *item0;
+            *item0 += 1;
+            if !ctx.mine(it) {
+                continue;
+            }
+            let mut rng = Rng::derive(ctx.seed, "c13-mutant", it as u64);
+            let mut patcher = vf_core::gen::Patcher::new();
+            let kinds: Vec<&'static str> = if k % 2 == 0 {
+                vf_core::gen::mutate_random(&mut buf, &dir, &mut rng, &mut patcher, Some(b"COLR"))
+            } else {
+                // uniform positions inside the COLR table: paint records dominate
+                let n = 1 + rng.usize(3);
+                for _ in 0..n {
+                    let p = colr_range.start + rng.usize(colr_range.len());
+                    match rng.usize(5) {
+                        0 => {
+                            let b = buf[p] ^ (1 << rng.usize(8));
+                            patcher.set(&mut buf, p, &[b]);
+                        }
+                        1 => {
+                            // a paint format byte
+                            let b = 1 + rng.usize(33) as u8;
+                            patcher.set(&mut buf, p, &[b]);
+                        }
+                        2 => {
+                            if p + 3 <= colr_range.end {
+                                // a 24-bit offset
+                                let v = rng.usize(colr_range.len()) as u32;
+                                patcher.set(&mut buf, p, &v.to_be_bytes()[1..]);
+                            }
+                        }
+                        3 => patcher.set(&mut buf, p, &[0]),
+                        _ => {
+                            let b = rng.u32() as u8;
+                            patcher.set(&mut buf, p, &[b]);
+                        }
+                    }
+                }
+                vec!["colr-uniform"]
+            };
+            for kd in &kinds {
+                ctx.count(&format!("mutation:{}", kd), 1);
+            }
+            let what = format!("mutant:{}:{}", f.name, patcher.describe());
+            let tries = ctx.tier.pick(6, 12).min(colour_gids.len());
+            for t in 0..tries {
+                let gid = if t < 2 { colour_gids[rng.usize(colour_gids.len())] } else { *rng.pick(&colour_gids) };
+                let coords: Vec<i16> = if t % 2 == 0 { vec![] } else { (0..axes).map(|_| rng.range(-16384, 16384) as i16).collect() };
+                let policy = Policy::all(rng.u64())[t % 5];
+                if let Some(o) = paint_one(ctx, &buf, gid, &coords, policy, Want::Any, &what) {
+                    let exp = Expect { family: format!("{}:gid={}", what, gid), ..Default::default() };
+                    judge(ctx, &o, &buf, gid, &coords, policy, &what, &exp);
+                }
+            }
+            patcher.undo(&mut buf);
+        }
+    }
+}
 
 pub fn run(ctx: &mut Ctx, _args: &Args) {
-    ctx.rule = "stub".into();
+    ctx.policy = PanicPolicy::Totality;
+    ctx.rule = "a ColorGlyph::paint call on a COLRv1 glyph whose traversal entered >= 3 paint nodes and issued >= 1 push callback, or which returned an \
+                error after entering >= 2 nodes; digest = (font bytes hash, glyph id, normalized coords, painter policy)"
+        .into();
+    ctx.assumptions = vec![
+        "the painter's own callbacks terminate and do not re-enter paint".into(),
+        format!("bounded = at most 2^20 paint nodes entered per paint call (hook counter); the painter aborts after {} callbacks", CALLBACK_BUDGET),
+        "too deep = a node at recursion depth 64 (MAX_TRAVERSAL_DEPTH) is entered; errors may leave pushes open".into(),
+        "expectations 'must be Err' come from a reference model of graphs the harness built itself; corpus fonts and byte mutants are judged by the generic oracles only".into(),
+    ];
+    let mut item = 0usize;
+
+    // ---- 1. the known exponential shapes (shard 0)
+    if ctx.shard.0 == 0 {
+        fanout_families(ctx);
+    }
+
+    // ---- 2. generated graphs
+    let n_random = ctx.tier.pick(6_000usize, 120_000);
+    for i in 0..n_random {
+        let it = item;
+        item += 1;
+        if !ctx.mine(it) {
+            continue;
+        }
+        let mut rng = Rng::derive(ctx.seed, "c13-gen", i as u64);
+        let fam = FAMILIES[i % FAMILIES.len()];
+        let Some(m) = Model::generate(fam, &mut rng) else {
+            ctx.count("generator_rejected(unfolded size over cap)", 1);
+            continue;
+        };
+        run_model_case(ctx, fam, i as u64, &m, &mut rng, None);
+    }
+    // ---- 3. exhaustive small sweeps: chain lengths / depths 1..=70 for every chain kind
+    for kind in CHAIN_KINDS {
+        for len in 1..=70usize {
+            for closing in 0..4usize {
+                let it = item;
+                item += 1;
+                if !ctx.mine(it) {
+                    continue;
+                }
+                let mut rng = Rng::derive(ctx.seed, "c13-chain", (len * 16 + closing) as u64 ^ fnv64(kind.as_bytes()));
+                let m = Model::chain(kind, len, closing, &mut rng);
+                run_model_case(ctx, &format!("chain:{}", kind), (len * 4 + closing) as u64, &m, &mut rng, None);
+            }
+        }
+    }
+
+    // ---- 4. corpus fonts and their mutants
+    let fonts = corpus_colr_fonts();
+    ctx.extra.insert("corpus_colr_font_count".into(), json!(fonts.len()));
+    corpus_pass(ctx, &fonts, &mut item);
+    let per_font = ctx.tier.pick(3_000usize, 60_000);
+    mutant_pass(ctx, &fonts, &mut item, per_font);
+}
+
+fn replay(ctx: &mut Ctx, _args: &Args, rec: &Value, input: Option<&[u8]>) {
+    ctx.policy = PanicPolicy::Totality;
+    let Some(font) = input else {
+        ctx.inconclusive("replay without input bytes");
+        return;
+    };
+    let d = &rec["detail"];
+    let d = if d["case"].is_object() { &d["case"] } else { d };
+    let gid = d["gid"].as_u64().unwrap_or(0) as u32;
+    let coords: Vec<i16> = d["coords"].as_array().map(|a| a.iter().map(|v| v.as_i64().unwrap_or(0) as i16).collect()).unwrap_or_default();
+    let policy = Policy::from_json(&d["policy"]);
+    let what = d["what"].as_str().unwrap_or("replay").to_string();
+    if let Some(o) = paint_one(ctx, font, gid, &coords, policy, Want::Any, &what) {
+        eprintln!("replay outcome: {:?}", o);
+        // keep the recorded family so that the signature is reproduced
+        let sig = rec["signature"].as_str().unwrap_or("");
+        let fam = sig.splitn(2, ':').nth(1).unwrap_or("").to_string();
+        let exp = Expect { family: if sig.starts_with("unbounded-traversal:") { fam } else { format!("{}:gid={}", what, gid) }, ..Default::default() };
+        judge(ctx, &o, font, gid, &coords, policy, &what, &exp);
+    }
 }
